@@ -12,7 +12,7 @@ import (
 
 func init() {
 	register("C33", propMeta{
-		Explanation:  "Decides the guards around what Get / Query may return; cosine values, distinctness and preservation across Optimize are NOT decided: (R1) Query: candidates are sorted by descending score before selection; the selection loop ranges over the sorted candidates in order, stops once k hits are taken (test at the top of every iteration), and appends a hit only when the Content entry was found, is not marked Deleted, decodes, and passes the filter (filter == nil || filter(payload)); deleted vector keys and nil vectors are skipped while collecting candidates; (R2) Get: an item is returned only when the Content entry was found and is not marked Deleted (both yield an error), and the vector is looked up under the (centroid, distance, id) key; (R3) Delete marks the Content key Deleted through UpdateCurrentKey before any success return for a found item, and Delete / Upsert / UpsertBatch refuse to run while the store is optimizing; (R4) generation agreement of the lazy migration: wherever a function of the package takes an item's centroid from the Next generation (NextCentroidID), it takes the distance from the same generation (NextDistance) on every path before the pair is used - a (new centroid, old distance) pair does not name any vector key.",
+		Explanation:  "Decides the guards around what Get / Query may return; cosine values, distinctness and preservation across Optimize are NOT decided: (R1) Query: candidates are sorted by descending score before selection; the selection loop ranges over the sorted candidates in order, stops once k hits are taken (test at the top of every iteration), and appends a hit only when the Content entry was found, is not marked Deleted, decodes, and passes the filter (filter == nil || filter(payload)); deleted vector keys and nil vectors are skipped while collecting candidates; (R2) Get: an item is returned only when the Content entry was found and is not marked Deleted (both yield an error), and the vector is looked up under the (centroid, distance, id) key; (R3) Delete marks the Content key Deleted through UpdateCurrentKey before any success return for a found item, and Delete / Upsert / UpsertBatch refuse to run while the store is optimizing; (R4) generation agreement of the lazy migration: wherever a function of the package takes an item's centroid from the Next generation (NextCentroidID), it takes the distance from the same generation (NextDistance) on every path before the pair is used - a (new centroid, old distance) pair does not name any vector key. (R5) the deduplication flag (cleanup of an id's previous vector entry) is written by its exported setter only.",
 		DoesNotCover: "Ranking values (cosine), that hits are distinct when stale vectors exist, and that Optimize never loses, duplicates or resurrects items are value/history-level and not decided.",
 	}, runC33)
 }
